@@ -144,7 +144,7 @@ InitW(hasPw, pw, srvPw, hasSrvPw, auth, pic) ==
     reqs |-> <<>>, curList |-> <<>>,
     alts |-> {[ow |-> <<>>, lx |-> 0]}, lxRep |-> 0, tmo |-> FALSE,
     fault |-> "", poison |-> -1, lostAt |-> -1, obs |-> {}, surfaced |-> FALSE,
-    nClosingEv |-> 0, evEnded |-> FALSE, evAfterEnd |-> FALSE, evAfterClosing |-> FALSE,
+    nClosingEv |-> 0, evEnded |-> FALSE, evAfterEnd |-> FALSE, evAfterClosing |-> FALSE, evDropped |-> FALSE,
     handles |-> 0, ioDropped |-> FALSE, connected |-> "", nconf |-> 0, desync |-> FALSE, wst |-> FALSE,
     art |-> <<>>,
     viol |-> <<>> ]
@@ -229,7 +229,10 @@ WCliLineD(w, ln, dig(_, _, _)) ==
       w3 == IF w.hasPw /\ w.nlines = 1 /\ w.phase # "rejected" /\ w.phase # "authwait"
             THEN Chk(w2, ln.k = "idle", "C05", "first line after authentication is not idle") ELSE w2
       healthy == w.fault = ""
-      w4 == Chk(w3, ~healthy \/ w.mode # "idle" \/ ln.k = "noidle", "C05", "command written while the server waits in idle")
+      w4a == Chk(w3, ~healthy \/ w.mode # "idle" \/ ln.k = "noidle", "C05", "command written while the server waits in idle")
+      \* a noidle that crosses an idle reply still in flight is a legal race (the server ignores it); one written after that reply
+      \* was read completely is not: the client knows that no idle is pending
+      w4 == Chk(w4a, ~(ln.k = "noidle" /\ healthy /\ w.phase = "up" /\ w.mode # "idle" /\ w.rd = w.wr /\ ~w.silent), "C05", "noidle written although no idle is pending")
       startsReq == w.mode # "list" /\ ln.k \in {"req", "begin", "pic", "other", "sticker", "update", "addid", "channels"}
       w5 == IF startsReq /\ healthy THEN Chk(w4, w.rd = w.wr, "C05", "request written while earlier server output is still unread (more than one exchange outstanding)") ELSE w4
       w6 == IF ln.k = "idle" /\ w.mode # "idle" /\ healthy THEN Chk(w5, w.rd = w.wr, "C05", "idle written while earlier server output is still unread") ELSE w5
@@ -439,8 +442,12 @@ IsDue(w, e) == /\ e.replyEnd <= w.rd
                /\ (w.poison < 0 \/ e.replyEnd <= w.poison)
                /\ (w.lostAt < 0 \/ e.replyEnd <= w.lostAt)
 MinLx(alts) == CHOOSE x \in {a.lx : a \in alts} : \A y \in {a.lx : a \in alts} : x <= y
-WQuiescent(w) ==
-  LET Bad(a) == \E k \in 1..Len(a.ow) : IsDue(w, a.ow[k]) /\ ~a.ow[k].exc
+\* the user dropped the event receiver (allowed): nothing is owed to it any more, nothing about the event stream is observable
+WEventsDropped(w) == [w EXCEPT !.evDropped = TRUE]
+NoOwed(w) == [w EXCEPT !.alts = {[ow |-> <<>>, lx |-> a.lx] : a \in @}]
+WQuiescent(w0) ==
+  LET w == IF w0.evDropped THEN NoOwed(w0) ELSE w0
+      Bad(a) == \E k \in 1..Len(a.ow) : IsDue(w, a.ow[k]) /\ ~a.ow[k].exc
       good == {a \in w.alts : ~Bad(a)}
       Purge(a) == [ow |-> SelectSeq(a.ow, LAMBDA e : ~IsDue(w, e)),
                    lx |-> a.lx + Cardinality({k \in 1..Len(a.ow) : IsDue(w, a.ow[k]) /\ a.ow[k].exc})]
@@ -451,7 +458,7 @@ WQuiescent(w) ==
                    IF \A x \in lostIdx : x > 1 THEN "not-first-changed-line" ELSE "")
       m == MinLx(w1.alts)
       w2 == IF m > w.lxRep THEN V([w1 EXCEPT !.lxRep = m], "C04", "notification lost: partial idle reply dropped when a request arrived", "F-C04-2") ELSE w1
-      w4 == Chk(w2, ~(w.tmo /\ AllSeen(w) /\ w.rd = w.wr /\ w.fault = "" /\ w.handles > 0) \/ w.lastK = "idle", "C05", "no idle after the re-idle delay expired")
+      w4 == Chk(w2, ~(w.tmo /\ AllSeen(w) /\ w.rd = w.wr /\ w.fault = "" /\ w.handles > 0) \/ w.mode = "idle", "C05", "no idle after the re-idle delay expired")
   IN [w4 EXCEPT !.tmo = FALSE]
 
 \* --- end of run: fin = [closed, closedKnown, evEnded, ioDropped, unresolved (set of <<c,n>>), alive]
@@ -462,7 +469,7 @@ WFinal(w, fin) ==
                V(w, IF w.fault = "" /\ w.handles > 0 THEN "C01" ELSE "C08", "request never resolved after the session was drained", "") ELSE w
       w2 == IF w.obs \cap {"eof_dirty", "eof_dirty_after_drop", "eof_clean", "read_err", "write_err", "garbage"} # {} /\ w.phase = "up"
             THEN LET a == Chk(w1, ~fin.closedKnown \/ fin.closed, "C08", "connection ended but the client does not report itself closed")
-                     b == Chk(a, fin.evEnded, "C08", "connection ended but the event stream did not end")
+                     b == Chk(a, fin.evEnded \/ w.evDropped, "C08", "connection ended but the event stream did not end")
                      c == Chk(b, fin.ioDropped, "C08", "connection ended but the transport was not released")
                  IN c
             ELSE w1
@@ -472,7 +479,7 @@ WFinal(w, fin) ==
             THEN Chk(w2, w.surfaced \/ someCancelled, "C08", "unclean connection end was reported neither to a caller nor as a closing event") ELSE w2
       w4 == IF w.handles = 0 /\ w.phase = "up" /\ fin.unresolved = {} THEN
                Chk(Chk(w3, fin.ioDropped, "C08", "last handle dropped but the transport was not released"),
-                   fin.evEnded, "C08", "last handle dropped but the event stream did not end")
+                   fin.evEnded \/ w.evDropped, "C08", "last handle dropped but the event stream did not end")
             ELSE w3
       w5 == IF w.fault = "" /\ w.handles > 0 /\ w.phase = "up" THEN
                Chk(Chk(w4, ~fin.closedKnown \/ ~fin.closed, "C08", "client reports closed on a healthy connection"), ~fin.evEnded, "C08", "event stream ended on a healthy connection")
@@ -480,7 +487,13 @@ WFinal(w, fin) ==
       w6 == IF "eof_dirty_after_drop" \in w.obs /\ ~Unclean(w) /\ w.phase = "up" /\ fin.evEnded /\ ~w.surfaced /\ ~someCancelled
             THEN V(w5, "C08", "end of stream inside an idle reply taken for a clean close: its first lines were dropped with the cancelled receive", "F-C04-2")
             ELSE w5
-  IN w6
+      \* a healthy connection (no fault, valid server output, live handles, drained): a notification whose reply reached the
+      \* transport but that the client never read is lost just the same - the client gave up reading on its own
+      stuck == \A a \in w.alts : \E k \in 1..Len(a.ow) : ~a.ow[k].exc /\ a.ow[k].replyEnd <= w.dl /\ a.ow[k].replyEnd > w.rd
+      w7 == IF w.fault = "" /\ w.obs = {} /\ w.poison < 0 /\ ~w.desync /\ ~w.wst /\ ~w.evDropped /\ w.handles > 0 /\ w.phase = "up" /\ w.rd < w.dl /\ stuck
+            THEN V(w6, "C04", "notification lost: its idle reply reached the transport of a healthy connection but the client stopped reading", "")
+            ELSE w6
+  IN w7
 
 \* after the final observation one more request is issued (probe): it must resolve too
 \* ... and finally every handle is dropped: the loop must end, the event stream must end, the transport must be released
@@ -488,6 +501,6 @@ WEnd(w, unresolved, evEnded, ioDropped) ==
   LET w1 == IF unresolved = {} THEN w ELSE V(w, "C08", "request issued after the end of the connection (or after the drain) never resolved", "") IN
   IF w.phase = "up" /\ w.handles = 0 /\ unresolved = {}
   THEN Chk(Chk(w1, ioDropped, "C08", "all handles dropped but the transport was not released"),
-           evEnded, "C08", "all handles dropped but the event stream did not end")
+           evEnded \/ w.evDropped, "C08", "all handles dropped but the event stream did not end")
   ELSE w1
 =============================================================================
